@@ -92,7 +92,7 @@ func (g *gen) byteString(allowBig bool) []byte {
 	case 0, 1, 2:
 		n = sizeBoundaries[g.r.Intn(len(sizeBoundaries))]
 	case 3:
-		if allowBig && g.r.Intn(6) == 0 {
+		if allowBig && g.r.Intn(24) == 0 {
 			n = bigSizes[g.r.Intn(len(bigSizes))]
 		} else {
 			n = g.r.Intn(70)
